@@ -102,8 +102,27 @@ def dispatchesFrom : Nat → List Obs → List Disp
 
 def dispatches (obs : List Obs) : List Disp := dispatchesFrom 0 obs
 
+/-- the fire time an observation dispatched for `tag`, if it did -/
+def Obs.dispTime? (tag : Nat) (o : Obs) : Option Int :=
+  match o.disp? 0 with
+  | some d => if d.tag = tag then some d.time else none
+  | none => none
+
 /-- fire times of one tag that were dispatched, in order -/
-def dispatchTimes (tag : Nat) (obs : List Obs) : List Int :=
-  ((dispatches obs).filter (fun d => d.tag == tag)).map (·.time)
+def dispatchTimes (tag : Nat) (obs : List Obs) : List Int := obs.filterMap (Obs.dispTime? tag)
+
+/-- the observation shows no consumption of a fire time of `tag`: its trigger is not asked and it is
+not dispatched -/
+def Obs.noConsume (tag : Nat) (o : Obs) : Prop :=
+  (∀ c ∈ o.calls, c.tag ≠ tag) ∧ ∀ pos d, o.disp? pos = some d → d.tag ≠ tag
+
+/-- the observation shows no trace of `tag` at all: not asked, not even popped -/
+def Obs.quiet (tag : Nat) (o : Obs) : Prop :=
+  (∀ c ∈ o.calls, c.tag ≠ tag) ∧ ∀ out e, o.out = some out → out.popped = some e → e.tag ≠ tag
+
+/-- the two lists have the same length and are related position by position -/
+inductive AllPairs {α β : Type} (R : α → β → Prop) : List α → List β → Prop
+  | nil : AllPairs R [] []
+  | cons {a : α} {b : β} {as : List α} {bs : List β} : R a b → AllPairs R as bs → AllPairs R (a :: as) (b :: bs)
 
 end Sched
